@@ -153,7 +153,7 @@ func runC29(c *Ctx) {
 		}
 		c.ArgIs(fn, "length part: exactly 8 bytes are read", c.CallsTo(fn, "util.EnsureRead"), 1, 2, "var:makeslice[:8]")
 	}
-	lengthedAllocRules(c)
+	lengthedAllocRules(c, false)
 	if fn := c.Need("util.ReadLengthed"); fn != nil {
 		er := c.CallsTo(fn, "util.EnsureRead")
 		c.MP(fn, "lengthed item: bytes read only after the length part was read", er, 1, GOk("util.ReadLength(r)"))
@@ -327,7 +327,7 @@ func ensureReadRules(c *Ctx) {
 
 // lengthedAllocRules (shared by C29 and C30 under the caller's current rule): ReadLengthed allocates
 // the buffer of an item only for an announced length that passed the limit as an unsigned value.
-func lengthedAllocRules(c *Ctx) {
+func lengthedAllocRules(c *Ctx, hostile bool) {
 	fn := c.Need("util.ReadLengthed")
 	if fn == nil {
 		return
@@ -340,6 +340,38 @@ func lengthedAllocRules(c *Ctx) {
 	}
 	c.MP(fn, "lengthed item: buffer allocated only for an announced length within the limit (compared as unsigned)", ms, 1,
 		GCmpU("util.ReadLength(r)#1", "<=", "*"), GCmpU("util.ReadLength(r)#1", "<", "*"))
+	if !hostile {
+		return
+	}
+	// the whole buffer is allocated before the first payload byte arrives: the limit is what nine bytes
+	// from a peer can make the node allocate (and EnsureRead allocates a scratch buffer of the missing
+	// size again on every read round)
+	const maxUpfront = 64 << 20
+	var limits []string
+	ok := false
+	for _, b := range fn.Blocks {
+		if len(b.Instrs) == 0 {
+			continue
+		}
+		ifi, isIf := b.Instrs[len(b.Instrs)-1].(*ssa.If)
+		if !isIf {
+			continue
+		}
+		bo, isB := ifi.Cond.(*ssa.BinOp)
+		if !isB || c.D(bo.X) != "util.ReadLength(r)#1" {
+			continue
+		}
+		k, isK := bo.Y.(*ssa.Const)
+		if !isK || k.Value == nil || k.Uint64() <= 1 {
+			continue
+		}
+		limits = append(limits, c.D(bo.Y))
+		if k.Uint64() <= maxUpfront {
+			ok = true
+		}
+	}
+	c.Report(fn, "lengthed item: a peer-announced length allocates at most 64 MiB before any payload byte arrives", fn.Pos(), ok,
+		"limit(s) on the announced length: "+strings.Join(limits, ", "))
 }
 
 // listLimitRules: the stream reader and the buffer reader of a lengthed list refuse the same
